@@ -9,6 +9,18 @@ for d in sorted(os.listdir(os.path.join(HERE, "seeded"))):
         continue
     m = json.load(open(os.path.join(HERE, "seeded", d, "meta.json")))
     conf = m.get("confirmed", {})
-    res = m.get("result_now") or conf.get("checks_run_with_patch_applied_to_repo", "")
+    raw = m.get("result_now") or conf.get("checks_run_with_patch_applied_to_repo", "")
+    import re
+    parts = []
+    for chk in sorted(set(re.findall(r"\[(C\d\d) quick", raw))):
+        seg = [x for x in raw.split(";") if ("property=" + chk) in x or ("[" + chk + " quick") in x]
+        viol = [x for x in seg if "VIOLATION" in x]
+        if not viol:
+            parts.append(chk + " quiet")
+        elif all("no-failing-input-found" in x for x in viol):
+            parts.append(chk + " **caught** (no-failing-input-found)")
+        else:
+            parts.append(chk + " **caught**")
+    res = ", ".join(parts) or raw
     cells = [d, m["property"], m["summary"].replace("|", "/")[:170], str(m.get("needs", "")).replace("|", "/")[:170], res.replace("|", "/")[:200], m.get("first_version", "")]
     print("| " + " | ".join(cells) + " |")
